@@ -43,6 +43,9 @@ func load(repo string) (*loaded, error) {
 	}
 	prog, spkgs := ssautil.AllPackages(pkgs, ssa.GlobalDebug)
 	prog.Build()
+	for _, p := range prog.AllPackages() {
+		registerStructs(p.Pkg)
+	}
 	l := &loaded{prog: prog, spkg: spkgs[0], pkg: pkgs[0], funcs: map[string]*ssa.Function{}}
 	for fn := range ssautil.AllFunctions(prog) {
 		if fn.Pkg == l.spkg || (fn.Pkg == nil && fn.Parent() != nil && fn.Parent().Pkg == l.spkg) {
@@ -55,6 +58,7 @@ func load(repo string) (*loaded, error) {
 		}
 	}
 	allFuncs = l.funcs
+	pkgSyntax = pkgs[0].Syntax
 	c, err := loadContracts(filepath.Join(repo, "verif_contracts.go"))
 	if err != nil {
 		return nil, err
